@@ -58,6 +58,8 @@ Next ==
   \/ ~Solo /\ Do(Op("add_para", 0, 0, 0, <<>>, 0), AddParaI(st))
   \/ ~Solo /\ \E i \in 0..(NP + 1) : Do(Op("insert_para", 0, 0, 0, <<>>, i), InsertParaI(st, i))
   \/ ~Solo /\ \E i \in 0..(NP + 1) : Do(Op("remove_para", 0, 0, 0, <<>>, i), RemoveParaI(st, i))
+  \* reformat the document (no sort order, no paragraph rebuilder) and go on editing the result
+  \/ ~Solo /\ Do(Op("wrap", 0, 0, 0, <<>>, 0), WrapI(st))
 
 Bound ==
   /\ NP <= MaxP
